@@ -163,6 +163,14 @@ func c01Degenerate() []string {
 		"func(a, a) { return a }(1, 2)", "func(...) { }", "for ;; { break }", "for i = 0; i < 1; { i++ }", "if nothing { } else if nothing { } else { }", "a = 1 ? 2", "a = ?? 1",
 		"\"\\x\"", "\"unterminated", "`raw", "/* open", "0x", "0b2", "1e", "1.2.3", "1e400", "99999999999999999999", "'ab'", "#", "\x00", "\xff\xfe", "a = \"\xff\"; a[0]",
 		"toString", "keys(nothing)", "range(1, 2, 0)", "strs[nothing]", "ints[nothing]", "ints[\"a\"]", "ints[1.5]", "ints + list", "list + ints", "ints + [nothing]", "ints + [\"a\"]",
+		// nil pointer elements handed to the loop variable; member syntax on maps whose keys are not strings
+		"a = make([]*int64, 1); for x in a { y = x }", "for x in nilptrs { y = x; probe(y) }", "for x in nilptrs { [x] }", "for x in nilptrs { x == nil }",
+		"func() { for x in nilptrs { return x } }()", "c = make(chan *int64, 1); c <- nil; close(c); for x in c { y = x; probe(x) }", "for x in nilptrs { f = func() { return x }; f() }",
+		"for x in nilptrs { {\"k\": x} }", "for x in nilptrs { x.y }", "for x in nilptrs { \"\" + x }", "for x in [nilptrs[0]] { y = x }",
+		"a = make(map[int64]string); a.b = \"x\"", "a = make(map[bool]string); a.b = 1", "a = make(map[float64]int64); a.k = 1", "a = make(map[int64]string); a.b",
+		"a = make(map[int64]string); a[\"b\"] = \"x\"", "a = make(map[int64]string); delete(a, \"b\")", "m = map[int64]int64{}; m.x = 1", "m = map[int64]int64{}; m.x += 1",
+		"m = make(map[string]int64); m.x = \"s\"", "s = make(struct{M map[int64]string}); s.M.k = \"v\"", "m = make(map[*int64]int64); m.k = 1", "m = make(map[chan int64]int64); m.k = 1",
+		"m = make(map[int64]string); m.k++", "m = make(map[interface]int64); m.k = 1; m[nilptrs] = 2", "var m = make(map[int8]int8); m.kk = 1",
 		"ch <- ch", "ch2 = make(chan int64); ch2 <- \"s\"", "x, ok = <- nothing", "x, ok = <- ch", "for x in ch { break }", "go probe(1)", "go nothing()", "go n", "go mod.v()",
 	}
 }
